@@ -12,9 +12,9 @@
 #include "scpi/scpi.h"
 
 static scpi_t ctx;
-static char ibuf[4096];
+static char ibuf[16384];
 static scpi_error_t eq[8];
-static unsigned char wbuf[4096];
+static unsigned char wbuf[16384];
 static size_t wlen;
 static int errv[16], nerr;
 
@@ -26,6 +26,7 @@ static scpi_result_t on_flush(scpi_t * c) { (void) c; return SCPI_RES_OK; }
 static int rd_kind;            /* 0 i32 1 u32 2 i64 3 u64 4 bool 5 text 6 block 7 i32 array(ascii) */
 static uint64_t dec_val; static int dec_ok;
 static double dec_dbl; static float dec_flt;
+static int32_t dec_arr[1100]; static size_t dec_n;
 static unsigned char dec_bytes[2048]; static size_t dec_len;
 
 static scpi_result_t h_rt(scpi_t * c) {
@@ -37,6 +38,7 @@ static scpi_result_t h_rt(scpi_t * c) {
         case 3: { uint64_t v = 0; dec_ok = SCPI_ParamUInt64(c, &v, TRUE); dec_val = v; break; }
         case 4: { scpi_bool_t v = 0; dec_ok = SCPI_ParamBool(c, &v, TRUE); dec_val = v ? 1 : 0; break; }
         case 5: { size_t l = 0; dec_ok = SCPI_ParamCopyText(c, (char *) dec_bytes, sizeof dec_bytes, &l, TRUE); dec_len = l; break; }
+        case 7: { dec_n = 0; dec_ok = SCPI_ParamArrayInt32(c, dec_arr, 1100, &dec_n, SCPI_FORMAT_ASCII, TRUE); break; }
         case 8: { dec_dbl = 0; dec_ok = SCPI_ParamDouble(c, &dec_dbl, TRUE); break; }
         case 9: { dec_flt = 0; dec_ok = SCPI_ParamFloat(c, &dec_flt, TRUE); break; }
         case 6: { const char * p = NULL; size_t l = 0; dec_ok = SCPI_ParamArbitraryBlock(c, &p, &l, TRUE); if (dec_ok && l <= sizeof dec_bytes) { memcpy(dec_bytes, p, l); dec_len = l; } break; }
@@ -53,7 +55,7 @@ static void limbs(uint64_t v) { fprintf(out, "[%u,%u,%u,%u]", (unsigned) (v >> 4
 static void fresh(void) { SCPI_Init(&ctx, cmds, &itf, scpi_units_def, 0, 0, 0, 0, ibuf, sizeof ibuf, eq, 8); wlen = 0; nerr = 0; }
 
 static void send_back(void) {
-    static char msg[4200];
+    static char msg[16500];
     size_t n = wlen;
     int i;
     memcpy(msg, "RT ", 3); memcpy(msg + 3, wbuf, n); msg[3 + n] = '\n';
@@ -131,6 +133,19 @@ static void case_flt(float v) {
     fprintf(out, ",\"dneg\":%d", signbit(dec_flt) ? 1 : 0); expansion("dd", "de", (double) dec_flt); fprintf(out, "}\n");
 }
 
+/* ASCII-formatted array: element by element */
+static void case_arr(const int32_t * a, size_t n) {
+    size_t i;
+    fresh(); SCPI_ResultArrayInt32(&ctx, a, n, SCPI_FORMAT_ASCII);
+    fprintf(out, "{\"t\":\"arr\",\"v\":[");
+    for (i = 0; i < n; i++) fprintf(out, "%s%d", i ? "," : "", (int) a[i]);
+    fprintf(out, "],\"out\":"); pb(wbuf, wlen);
+    rd_kind = 7; send_back();
+    fprintf(out, ",\"dec\":[");
+    for (i = 0; i < dec_n && dec_ok; i++) fprintf(out, "%s%d", i ? "," : "", (int) dec_arr[i]);
+    fprintf(out, "]}\n");
+}
+
 static uint64_t rng;
 static uint64_t rnd(void) { rng ^= rng << 13; rng ^= rng >> 7; rng ^= rng << 17; return rng; }
 
@@ -195,6 +210,15 @@ int main(int argc, char ** argv) {
         unsigned char s[1200];
         size_t n, k, maxn = thorough ? 1100 : 300;
         for (n = 0; n <= maxn; n++) { for (k = 0; k < n; k++) s[k] = (unsigned char) (rnd() % 6 == 0 ? "\n\r;\"#,"[rnd() % 6] : rnd()); case_block(s, n); }
+    }
+    {
+        static const size_t ns[] = {1, 2, 3, 7, 255, 256, 257, 300, 512, 513, 1000};
+        static int32_t a[1100];
+        size_t k, j;
+        for (k = 0; k < sizeof ns / sizeof ns[0]; k++) {
+            for (j = 0; j < ns[k]; j++) a[j] = (int32_t) ((rnd() % 3 == 0) ? -(int32_t) (rnd() % 1000000000) : (int32_t) (rnd() % 1000));
+            case_arr(a, ns[k]);
+        }
     }
     /* finite doubles / floats: powers of ten, values next to them, random bit patterns over the full exponent range, subnormals */
     {
